@@ -990,6 +990,10 @@ class Atoms:
             four_body_terms.extend(self.impropers)
             four_body_terms = np.array(four_body_terms)
 
+            # the torsion loop has one row per dihedral and per improper; impropers have no torsion columns of their own
+            torsion_fields = np.full((len(four_body_terms), len(self.extra_dihedral_labels)), ".", dtype="object")
+            torsion_fields[0:len(self.dihedrals), :] = self.extra_dihedral_fields
+
             block.AddLoopItem(([
                     "_geom_torsion_atom_site_label_1",
                     "_geom_torsion_atom_site_label_2",
@@ -1001,7 +1005,7 @@ class Atoms:
                     [atom_labels[i] for i in four_body_terms[:,1]],
                     [atom_labels[i] for i in four_body_terms[:,2]],
                     [atom_labels[i] for i in four_body_terms[:,3]],
-                    *self.extra_dihedral_fields.T,
+                    *torsion_fields.T,
                 ]))
 
         f.write(cf.WriteOut(comment="# CIF file created by MOFUN using PyCifRW."))
